@@ -125,6 +125,7 @@ func workMain(fs *flag.FlagSet, args []string) {
 	hashKeep := fs.Int("hashkeep", 0, "keep trace hashes for run indices below this")
 	sweep := fs.Int("sweep", 0, "number of workloads (lowest indices) to sweep completely; -1 = all")
 	force := fs.String("force", "", "label=value,... : tape choices pinned for every run of this invocation")
+	cold := fs.Bool("cold", false, "do not warm up: the first run of this process is meant to be the first use of everything")
 	fs.Parse(args)
 	forced := map[string]int{}
 	for _, kv := range strings.Split(*force, ",") {
@@ -203,6 +204,9 @@ func workMain(fs *flag.FlagSet, args []string) {
 	}
 
 	manualGC()
+	if !*cold {
+		warmUp(p, *seed, *tier)
+	}
 	sinceGC := 0
 	abandoned := false
 	for idx := *from + *w; idx < *to && !abandoned; idx += *W {
